@@ -32,6 +32,7 @@ FRAG = {
  "F31": "Block-tagged message from a peer must not abort",
  "F32": "ghost chain request from a peer that has not completed the handshake",
  "F33": "key list that is refused",
+ "F34": "handshake handlers must not take the configuration or blockchain lock",
 }
 log = subprocess.run(["git","-C","/repo","log","--format=%h %s"],capture_output=True,text=True).stdout.splitlines()
 def find(frag):
